@@ -49,6 +49,11 @@ impl Report {
         let mut g = self.violations.lock().unwrap();
         g.entry(v.key.clone()).or_insert(v);
     }
+    /// first recorded violation whose key starts with `site` (used by replays that re-run a sweep)
+    pub fn find_violation(&self, site: &str) -> Option<String> {
+        let g = self.violations.lock().unwrap();
+        g.iter().find(|(k, _)| k.starts_with(site)).map(|(k, v)| format!("[{}] {}", k, v.what))
+    }
     pub fn n_violation_keys(&self) -> usize {
         self.violations.lock().unwrap().len()
     }
@@ -117,7 +122,7 @@ impl Report {
             "violations": new_v,
         });
         std::fs::create_dir_all(format!("{VERIF}/evidence")).ok();
-        let path = format!("{VERIF}/evidence/{}.json", self.prop);
+        let path = format!("{VERIF}/evidence/{}{}.json", self.prop, std::env::var("VERIF_EVIDENCE_SUFFIX").unwrap_or_default());
         std::fs::write(&path, serde_json::to_string_pretty(&ev).unwrap() + "\n").expect("write evidence");
         println!(
             "{} tier={} new_violations={} known={} wall={:.1}s evidence={}",
